@@ -282,7 +282,29 @@ func c03Check(c C03Case) (r evid.Result) {
 }
 
 func c03GenMsg(t *rapid.T) (gen.BS, int) {
-	switch rapid.IntRange(0, 9).Draw(t, "msgkind") {
+	switch rapid.IntRange(0, 10).Draw(t, "msgkind") {
+	case 10:
+		// Sizes at and around the daemon's and the usual buffer sizes (16 KiB is where dockerd
+		// splits long lines, 4 KiB / 64 KiB are common read buffers), with and without a final
+		// line break. Rep+1 copies of a chunk whose length divides the size.
+		size := rapid.SampledFrom([]int{16384, 16384, 16383, 16385, 4096, 4095, 32768, 65536, 65535, 8192}).Draw(t, "boundary-size")
+		nl := rapid.Bool().Draw(t, "boundary-newline")
+		for _, chunk := range []int{64, 32, 16, 8, 5, 3, 1} {
+			if size%chunk == 0 {
+				b := bytes.Repeat([]byte("x"), chunk)
+				if nl && chunk == size {
+					b[chunk-1] = '\n'
+				}
+				if nl && chunk < size {
+					// the final line break replaces the last byte of the last copy: emit one long chunk
+					whole := bytes.Repeat([]byte("y"), size)
+					whole[size-1] = '\n'
+					return gen.BS(whole), 0
+				}
+				return gen.BS(b), size/chunk - 1
+			}
+		}
+		return "", 0
 	case 0:
 		return "", 0
 	case 1:
